@@ -241,3 +241,63 @@ def second_opinion(data, method):
                     headers=[(k, v) for k, v in r.getheaders()])
     except Exception as e:   # http.client.HTTPException, ValueError, ...
         return dict(error='%s: %s' % (type(e).__name__, e))
+
+
+def _selfcheck(n=20000, seed=5):
+    """Conformance of this parser: generated well-formed responses (all framings x versions x methods x no-body statuses x Connection
+    headers) must be delimited exactly, every proper prefix must be 'incomplete', and http.client must agree on status, body, length
+    consumed and will_close; a list of malformed messages must be rejected.   Run: /venv/bin/python -m refs.http_resp"""
+    import random
+    rng = random.Random(seed)
+    for _ in range(n):
+        status = rng.choice([200, 201, 404, 500, 302, 204, 304, 101, 102, 299])
+        ver = rng.choice([0, 1])
+        method = rng.choice(['GET', 'HEAD'])
+        body = bytes(rng.randrange(256) for _ in range(rng.choice([0, 1, 5, 100, 300])))
+        framing = rng.choice(['length', 'chunked', 'close'] if ver else ['length', 'close'])
+        nobody = method == 'HEAD' or status < 200 or status in (204, 304)
+        if nobody and method != 'HEAD' and framing == 'chunked':
+            framing = 'length'      # http.client itself cannot read a 1xx/204/304 that carries Transfer-Encoding (forbidden by RFC 7230 3.3.1)
+        head = 'HTTP/1.%d %d %s\r\nDate: x\r\nX-A: b c\r\n' % (ver, status, 'Reason Phrase' if rng.random() < .8 else '')
+        conn = rng.choice([None, 'close', 'keep-alive', 'Keep-Alive'])
+        if conn:
+            head += 'Connection: %s\r\n' % conn
+        data = head.encode()
+        if framing == 'length':
+            data += b'Content-Length: %d\r\n\r\n' % len(body) + (b'' if nobody else body)
+        elif framing == 'chunked':
+            data += b'Transfer-Encoding: chunked\r\n\r\n'
+            i = 0
+            while i < len(body) and not nobody:
+                c = body[i:i + rng.randint(1, 50)]
+                i += len(c)
+                data += b'%x\r\n%s\r\n' % (len(c), c)
+            if not nobody:
+                data += b'0\r\n\r\n'
+        else:
+            data += b'\r\n' + (b'' if nobody else body)
+        to_eof = framing == 'close' and not nobody
+        extra = b'' if to_eof or rng.random() < .7 else b'HTTP/1.1 200 OK\r\n'
+        buf = bytearray(data + extra)
+        cut = rng.randrange(len(data))
+        assert parse_response(buf[:cut], 0, method, False) is None, (cut, data)
+        r = parse_response(buf, 0, method, to_eof)
+        assert r is not None and r.end == len(data) and r.status == status and r.body == (b'' if nobody else body), (r, data)
+        so = second_opinion(bytes(buf[r.start:r.end]), method)
+        assert 'error' not in so and (so['status'], so['body'], so['consumed'], so['will_close']) == (status, r.body, r.end, r.close_announced), (so, r, data)
+    bad = [b'HTTP/1.1 200 OK\r\nContent-Length: 3\r\nContent-Length: 4\r\n\r\nabcd', b'HTTP/1.1 200 OK\nA: b\n\n', b'XHTTP/1.1 200 OK\r\n\r\n',
+           b'HTTP/1.1 200 OK\r\nTransfer-Encoding: chunked\r\n\r\n3\r\nabcXX', b'HTTP/1.1 200 OK\r\nTransfer-Encoding: chunked\r\n\r\nzz\r\n',
+           b'HTTP/1.0 200 OK\r\nTransfer-Encoding: chunked\r\n\r\n0\r\n\r\n', b'HTTP/1.1 200 OK\r\nContent-Length: 5\r\n\r\nabc', b'abcHTTP/1.1 200 OK\r\n\r\n',
+           b'HTTP/1.1 20 OK\r\n\r\n', b'HTTP/1.1 200 OK\r\n bad: fold\r\n\r\n', b'HTTP/1.1 200 OK\r\nContent-Length: -1\r\n\r\n', b'HTTP/1.1 200 OK\r\nbad header\r\n\r\n',
+           b'HTTP/1.1 200 OK\r\nContent-Length: 1\r\nTransfer-Encoding: chunked\r\n\r\n0\r\n\r\n', b'HTTP/2.0 200 OK\r\n\r\n', b'']
+    for b in bad:
+        try:
+            r = parse_response(bytearray(b), 0, 'GET', True)
+        except Malformed:
+            continue
+        raise AssertionError('accepted malformed message %r as %r' % (b, r))
+    return n
+
+
+if __name__ == '__main__':
+    print('refs.http_resp self-check: %d generated responses agree with http.client, malformed samples rejected' % _selfcheck())
